@@ -50,8 +50,42 @@ macro_rules! unroll8_rev {
     };
 }
 
+macro_rules! unroll32 {
+    ($i:ident => $b:block) => {
+        unroll32!(@ $i $b 0 1 2 3 4 5 6 7 8 9 10 11 12 13 14 15 16 17 18 19 20 21 22 23 24 25 26 27 28 29 30 31);
+    };
+    (@ $i:ident $b:block $($k:literal)*) => { $( { let $i: usize = $k; $b } )* };
+}
+macro_rules! unroll32_rev {
+    ($i:ident => $b:block) => {
+        unroll32_rev!(@ $i $b 31 30 29 28 27 26 25 24 23 22 21 20 19 18 17 16 15 14 13 12 11 10 9 8 7 6 5 4 3 2 1 0);
+    };
+    (@ $i:ident $b:block $($k:literal)*) => { $( { let $i: usize = $k; $b } )* };
+}
+// the sorted set holds 8 entries by default and 32 with the cargo feature `set32` (profile of the same name:
+// harnesses about long free lists)
+#[cfg(not(feature = "set32"))]
+macro_rules! unroll_set {
+    ($i:ident => $b:block) => { unroll8!($i => $b); };
+}
+#[cfg(not(feature = "set32"))]
+macro_rules! unroll_set_rev {
+    ($i:ident => $b:block) => { unroll8_rev!($i => $b); };
+}
+#[cfg(feature = "set32")]
+macro_rules! unroll_set {
+    ($i:ident => $b:block) => { unroll32!($i => $b); };
+}
+#[cfg(feature = "set32")]
+macro_rules! unroll_set_rev {
+    ($i:ident => $b:block) => { unroll32_rev!($i => $b); };
+}
+
 // ---------- sorted set (fixed capacity) ----------
+#[cfg(not(feature = "set32"))]
 pub const SET_CAP: usize = 8;
+#[cfg(feature = "set32")]
+pub const SET_CAP: usize = 32;
 #[derive(Clone, Debug, PartialEq, Eq)]
 pub struct BTreeSet<T> {
     a: [T; SET_CAP],
@@ -69,14 +103,14 @@ impl<T: Ord + Copy + Default> BTreeSet<T> {
     }
     pub fn contains(&self, t: &T) -> bool {
         let mut r = false;
-        unroll8!(i => { if i < self.n && &self.a[i] == t { r = true; } });
+        unroll_set!(i => { if i < self.n && &self.a[i] == t { r = true; } });
         r
     }
     pub fn insert(&mut self, t: T) -> bool {
         // position = number of elements < t ; duplicate => false
         let mut pos = 0;
         let mut dup = false;
-        unroll8!(i => {
+        unroll_set!(i => {
             if i < self.n {
                 if self.a[i] == t { dup = true; }
                 if self.a[i] < t { pos += 1; }
@@ -86,18 +120,18 @@ impl<T: Ord + Copy + Default> BTreeSet<T> {
             return false;
         }
         assert!(self.n < SET_CAP, "jv_env::BTreeSet capacity exceeded (outside the stated bound)");
-        unroll8_rev!(j => { if j > 0 && j > pos && j <= self.n { self.a[j] = self.a[j - 1]; } });
+        unroll_set_rev!(j => { if j > 0 && j > pos && j <= self.n { self.a[j] = self.a[j - 1]; } });
         self.a[pos] = t;
         self.n += 1;
         true
     }
     pub fn remove(&mut self, t: &T) -> bool {
         let mut pos = SET_CAP;
-        unroll8!(i => { if i < self.n && &self.a[i] == t { pos = i; } });
+        unroll_set!(i => { if i < self.n && &self.a[i] == t { pos = i; } });
         if pos == SET_CAP {
             return false;
         }
-        unroll8!(j => { if j + 1 < SET_CAP && j >= pos && j + 1 < self.n { self.a[j] = self.a[j + 1]; } });
+        unroll_set!(j => { if j + 1 < SET_CAP && j >= pos && j + 1 < self.n { self.a[j] = self.a[j + 1]; } });
         self.n -= 1;
         true
     }
